@@ -110,6 +110,12 @@ def judge_case(spec, do_collapse_pair=False, do_headers=False, do_table=False):
                 fa2, _ = execute(case, wd, paths, out='out2.fasta', cfg=alt)
                 s2 = {s for _, s in fa2}
                 res['collapse_diff'] = sorted(outset ^ s2)[:10]
+                if res['collapse_diff'] and o['lim'].has_context():
+                    # KF-CTX attribution: EVERY derivation of each differing peptide depends on a context-dependent
+                    # cleavage site (absent from the liberal set when such sites are never trusted, present when optional)
+                    o_r = cv.oracle_sets(case, lim=o['lim'].mixed_copy('robust'))
+                    o_m = cv.oracle_sets(case, lim=o['lim'].mixed_copy('mixed'))
+                    res['collapse_diff_ctx'] = all(p not in o_r['may'] and p in o_m['may'] for p in (outset ^ s2))
                 res['has_nested'] = any(e.tag == 'nested-donor' for bb in o['bbs'] for e in bb.edits)
                 res['collapse_cfg'] = alt
                 res['counters']['collapse_pairs'] = 1
